@@ -12,13 +12,22 @@ package main
 import (
 	"fmt"
 	"go/token"
+	"go/types"
 	"sort"
 	"strings"
 
 	"golang.org/x/tools/go/ssa"
 )
 
-func (m *Model) RunRecDepth(s *Sink, rule string, fns []*ssa.Function, minCycles int) {
+// visitedOK: a lookup in a map the function carries (a visited set), with a side that leaves, also bounds the recursion —
+// true for recursions over data, whose depth is unbounded only through cycles; not for recursions over the input text.
+func (m *Model) RunRecDepth(s *Sink, rule string, fns []*ssa.Function, minCycles int, visitedOK bool) {
+	what := "the depth of the recursion is decided by the input — one set of frames per consecutive comment, per level of nesting"
+	guardDesc := "a depth guard (an integer carried in the receiver or a parameter, compared with a constant, with a side that leaves without recursing)"
+	if visitedOK {
+		what = "the depth of the recursion is decided by the caller's data — one set of frames per pointer, element or field followed, without end when the data points back to itself"
+		guardDesc = "a depth guard (an integer carried in the receiver or a parameter, compared with a constant) or a visited-set guard (a lookup in a map it carries), with a side that leaves without recursing"
+	}
 	in := map[*ssa.Function]bool{}
 	for _, f := range fns {
 		if f.Blocks != nil && m.InModule(f) {
@@ -90,14 +99,38 @@ func (m *Model) RunRecDepth(s *Sink, rule string, fns []*ssa.Function, minCycles
 			if !ok {
 				continue
 			}
-			bo, ok := ifi.Cond.(*ssa.BinOp)
-			if !ok || (bo.Op != token.GTR && bo.Op != token.GEQ && bo.Op != token.LSS && bo.Op != token.LEQ) {
-				continue
+			isVisited := false
+			if visitedOK {
+				c := ifi.Cond
+				if u, isU := c.(*ssa.UnOp); isU && u.Op == token.NOT {
+					c = u.X
+				}
+				if ex, isEx := c.(*ssa.Extract); isEx {
+					c = ex.Tuple
+				}
+				if lk, isLk := c.(*ssa.Lookup); isLk {
+					if _, isMap := lk.X.Type().Underlying().(*types.Map); isMap {
+						switch h := lk.X.(type) {
+						case *ssa.Parameter:
+							isVisited = true
+						case *ssa.UnOp:
+							if fa, isFA := h.X.(*ssa.FieldAddr); isFA {
+								_, isVisited = fa.X.(*ssa.Parameter)
+							}
+						}
+					}
+				}
 			}
-			_, ky := bo.Y.(*ssa.Const)
-			_, kx := bo.X.(*ssa.Const)
-			if !(ky && carried(bo.X)) && !(kx && carried(bo.Y)) {
-				continue
+			if !isVisited {
+				bo, ok := ifi.Cond.(*ssa.BinOp)
+				if !ok || (bo.Op != token.GTR && bo.Op != token.GEQ && bo.Op != token.LSS && bo.Op != token.LEQ) {
+					continue
+				}
+				_, ky := bo.Y.(*ssa.Const)
+				_, kx := bo.X.(*ssa.Const)
+				if !(ky && carried(bo.X)) && !(kx && carried(bo.Y)) {
+					continue
+				}
 			}
 			// one side leaves without a call into the universe
 			for _, sb := range b.Succs {
@@ -279,7 +312,7 @@ func (m *Model) RunRecDepth(s *Sink, rule string, fns []*ssa.Function, minCycles
 			s.OK(rule, key, m.Pos(hub.Pos()), "every cycle among {%s} runs through a function that compares a carried depth with a constant and leaves", strings.Join(names, ", "))
 			continue
 		}
-		s.Violation(rule, key, m.Pos(hub.Pos()), "the functions {%s} call each other in a cycle and no function on it is a depth guard (an integer carried in the receiver or a parameter, compared with a constant, with a side that leaves without recursing): the depth of the recursion is decided by the input — one set of frames per consecutive comment, per level of nesting — and a Go stack overflow is not a panic that can be recovered, it ends the process", strings.Join(names, ", "))
+		s.Violation(rule, key, m.Pos(hub.Pos()), "the functions {%s} call each other in a cycle and no function on it is %s: %s — and a Go stack overflow is not a panic that can be recovered, it ends the process", strings.Join(names, ", "), guardDesc, what)
 	}
 	if len(all) < minCycles {
 		s.Undecided(rule, "cycles", "-", "%d recursion cycles found among the %d functions analysed, expected at least %d: the call graph no longer shows the recursive descent", len(all), len(universe), minCycles)
